@@ -580,3 +580,53 @@ pub fn for_each_history(k: usize, depth: usize, f: impl Fn(&[usize]) + Sync) {
         });
     }
 }
+
+/// Generic history-independence check (differential oracle): `op(i)` is run alone on a fresh
+/// thread to obtain its history-free result, then every sequence of <= depth operations is run
+/// back-to-back on a fresh thread and every result must equal the history-free one. A panic inside
+/// `op` must be turned into a value by the caller (use `guarded`).
+pub fn history_check<R: PartialEq + Send + Sync + std::fmt::Debug>(
+    ctx: &Ctx,
+    what: &str,
+    k: usize,
+    depth: usize,
+    op: impl Fn(usize) -> R + Sync,
+    describe: impl Fn(usize) -> String + Sync,
+) -> Stats {
+    let mut base: Vec<Option<R>> = (0..k).map(|_| None).collect();
+    for (i, slot) in base.iter_mut().enumerate() {
+        std::thread::scope(|s| {
+            let op = &op;
+            let h = s.spawn(move || op(i));
+            *slot = h.join().ok();
+        });
+    }
+    let stats = Mutex::new(Stats::new());
+    for_each_history(k, depth, |w| {
+        let mut st = Stats::new();
+        for (step, i) in w.iter().enumerate() {
+            let r = op(*i);
+            st.eval();
+            if Some(&r) != base[*i].as_ref() {
+                ctx.fail(
+                    &format!("history:{what}:result_depends_on_previous_operations"),
+                    || {
+                        format!(
+                            "{what}: operation sequence [{}] on one thread: step {step} gives a result different from the same operation on a fresh thread ({} vs {})",
+                            w.iter().map(|x| describe(*x)).collect::<Vec<_>>().join(" ; "),
+                            format!("{:?}", r).chars().take(160).collect::<String>(),
+                            format!("{:?}", base[*i]).chars().take(160).collect::<String>()
+                        )
+                    },
+                    || json!({"op": "history", "what": what, "sequence": w}),
+                );
+            }
+        }
+        st.count("history_sequences", 1);
+        st.nontrivial(format!("hist:{what}:{:?}", w).as_bytes());
+        let mut g = stats.lock().unwrap_or_else(|e| e.into_inner());
+        let old = std::mem::take(&mut *g);
+        *g = old.merge(st);
+    });
+    stats.into_inner().unwrap_or_else(|e| e.into_inner())
+}
